@@ -13,7 +13,8 @@ From Coq Require Import List Arith ZArith Sorted.
 Import ListNotations.
 Require Import Verif.lib.PyLite Verif.lib.Token Verif.lib.Recv Verif.lib.ObjChunks.
 Require Import Verif.gen.EventualGen Verif.lib.Eventual.
-Require Import Verif.gen.OrderGen Verif.lib.Order Verif.lib.OrderProofs Verif.lib.OrderBytes Verif.lib.OrderBytesProofs Verif.lib.OrderEventual.
+Require Import Verif.gen.OrderGen Verif.lib.Order Verif.lib.OrderProofs Verif.lib.OrderHooksProofs Verif.lib.OrderBytes Verif.lib.OrderBytesProofs
+        Verif.lib.OrderEventual.
 
 (* ids are issue indices: the issue order of a history is 0, 1, ..., (number of Issue ops) - 1 *)
 Theorem C04_ids_are_issue_order : forall ops, issued (run ops) = seq 0 (count_issues ops).
@@ -68,18 +69,47 @@ Print Assumptions C04_sender_never_idle_with_work.
 
 (* ... also when the later calls are issued from the sender's OWN stack, in the middle of the serialization of a call
    (application code that a slicer runs -- Copyable.getStateToCopy, the body of a streaming slicer before / between / after its
-   chunks and pauses -- invokes callRemote; RootSlicer.send then only enqueues, lib/Order.v issue_nested / release_nested): the
-   connection is left in exactly the state that the same calls, issued one after the other from ordinary code, leave it in.  So
-   a history with such calls IS a history `run ops`, and every theorem of this file applies to it. *)
-Theorem C04_reentrant_issue_is_history : forall ops st f inner, cur (run ops) = None ->
-  issue_nested st f inner (run ops) = run (ops ++ Issue st f :: issue_ops inner).
+   chunks and pauses -- invokes callRemote; RootSlicer.send then only enqueues).  lib/Order.v models this with a HOOK TABLE H: an
+   entry ((k, left), inner) makes the serialization of call k issue the calls `inner` at the control point at which it still has
+   `left` Deferreds to wait for.  `nrun H ops` is the history in which only the calls of ordinary code are ops and the others come
+   out of H when their moment comes -- inside the issuing send() on an idle sender, out of a later StallRelease when the hooked call
+   was only QUEUED on a busy sender (pump_h), recursively for calls issued by hooks.  For EVERY table, EVERY history and therefore
+   every state of the sender (no hypothesis on `cur`; round 6 had cur = None and a model that dropped the hooks of a queued call)
+   the connection is in exactly the state of the flat history n_flat -- the same ops with an Issue op for each call issued from
+   inside, at the point where it was issued.  So a history with such calls IS a history `run ops`, and every theorem of this
+   file applies to it.  (That the hooks fire at the control points where the real slicers run them is the correspondence:
+   harness/c04.py evaluates observe_steps_h on the real scenarios and compares with the real sender after every step.) *)
+Theorem C04_reentrant_history_is_flat_history : forall H ops, n_state (nrun H ops) = run (n_flat (nrun H ops)).
+Proof. exact hooks_run_is_history. Qed.
+Print Assumptions C04_reentrant_history_is_flat_history.
+
+(* the two single steps on top of any such history: callRemote from ordinary code (idle or busy sender), and the end of a pause *)
+Theorem C04_reentrant_issue_is_history : forall H ops st f,
+  let n := nrun H ops in
+  fst (fst (issue_h st f (n_hooks n) (n_state n))) =
+  run (n_flat n ++ Issue st f :: issue_ops (snd (issue_h st f (n_hooks n) (n_state n)))).
 Proof. exact reentrant_issue_is_history. Qed.
 Print Assumptions C04_reentrant_issue_is_history.
 
-Theorem C04_reentrant_issue_after_pause_is_history : forall ops inner p, cur (run ops) = Some p ->
-  release_nested inner (run ops) = run (ops ++ StallRelease :: issue_ops inner).
+Theorem C04_reentrant_issue_after_pause_is_history : forall H ops,
+  let n := nrun H ops in
+  fst (fst (release_h (n_hooks n) (n_state n))) =
+  run (n_flat n ++ StallRelease :: issue_ops (snd (release_h (n_hooks n) (n_state n)))).
 Proof. exact reentrant_issue_after_pause_is_history. Qed.
 Print Assumptions C04_reentrant_issue_after_pause_is_history.
+
+(* ... and the hooks of a call that was queued behind a paused one are not lost: when that pause ends (last Deferred, no hook of
+   its own at that point) the queued call c is taken off the queue, ITS hook runs -- the calls are put at the end of the queue,
+   numbered after everything issued meanwhile --, the entry is used up, and c pauses *)
+Theorem C04_hooks_of_a_queued_call_run_when_it_is_dequeued : forall H s c0 c rest,
+  cur s = Some (c0, 1) -> h_find (cid c0) 0 H = [] -> sendq s = c :: rest -> stalls c = S (pred (stalls c)) ->
+  let H' := h_drop (cid c0) 0 H in
+  release_h H s =
+    (with_cur (Some (c, stalls c)) (fold_left enqueue1 (h_find (cid c) (stalls c) H') (wrote c0
+        (mk (next_id s) rest None (wire s) (inq s) (waiting s) (evq s) (trace s) (lost s) (dropped s) (early s) (cut s)))),
+     h_drop (cid c) (stalls c) H', h_find (cid c) (stalls c) H').
+Proof. exact hooks_of_a_queued_call_run_when_it_is_dequeued. Qed.
+Print Assumptions C04_hooks_of_a_queued_call_run_when_it_is_dequeued.
 
 (* progress of the receiver: a turn of the eventual queue that holds a doNextCall enters the ready head *)
 Theorem C04_turn_enters_ready_head : forall s c rest,
@@ -191,7 +221,11 @@ Print Assumptions C04_dropped_only_after_loss.
 (* "regardless of packetisation".  lib/OrderBytes.v puts C07's tokenizer (Recv.feed, instantiated as in lib/ObjChunks.v)
    and the top-level framing (a call is complete at the CLOSE that brings the depth back to 0) under the ordering model:
    `brun bops` is a history in which the receiver gets PACKETS (BChunk bytes) instead of Deliver ops.
-   Every such history is a history of the ordering model, so order and at-most-once hold for every packetisation ... *)
+   Every such history is a history of the ordering model, so order and at-most-once hold for every packetisation.
+   WHAT THIS ONE DOES NOT SAY: bstep couples the bytes and the model only through the NUMBER of objects the bytes complete; in a
+   `brun` history the bytes need not be those of the model's wire (bytes of three calls without any Issue complete three objects
+   and enter nothing).  That the bytes OF THE WIRE amount to exactly the Deliver steps of the calls whose last byte has arrived --
+   no earlier, no later -- is C04_delivered_exactly_at_last_byte / C04_wire_bytes_are_delivers below. *)
 Theorem C04_order_any_chunking : forall bops,
   sublist (entered (b_model (brun bops))) (issued (b_model (brun bops))) /\ NoDup (entered (b_model (brun bops))).
 Proof. exact order_any_chunking. Qed.
@@ -221,6 +255,36 @@ Theorem C04_delivers_monotone_and_chunk_independent : forall cs1 cs2 cs',
 Proof. intros cs1 cs2 cs'. split; [apply completed_monotone | apply completed_chunk_independent]. Qed.
 Print Assumptions C04_delivers_monotone_and_chunk_independent.
 
+(* WHEN: a call is delivered exactly when its last byte has arrived, not before.  The complete bytes of `calls`, then p of the
+   bytes p ++ q of call c, in ANY packets: exactly |calls| objects are complete while q is outstanding (also when c's OPEN and
+   all of its arguments have arrived), |calls| + 1 as soon as q = [].  framed_strict: the serialization ends one top-level object
+   at its last token and at no earlier one (true of CallSlicer's: OrderBytesProofs.ser_call_framed_strict for the reference one).
+   The tokenizer part -- a token is handed upward only when its last byte is there -- is tokens_before_last_byte. *)
+Theorem C04_delivered_exactly_at_last_byte : forall (A : Type) (ser : A -> list token) (calls : list A) (c : A) bs1 p q cs,
+  (forall c, framed_strict (ser c)) ->
+  forallb wf_token (concat (map ser (calls ++ [c]))) = true -> forallb no_err (concat (map ser (calls ++ [c]))) = true ->
+  encode_stream (concat (map ser calls)) = Ok bs1 -> encode_stream (ser c) = Ok (p ++ q) -> concat cs = bs1 ++ p ->
+  completed cs = match q with [] => S (List.length calls) | _ => List.length calls end.
+Proof. exact @delivered_exactly_at_last_byte. Qed.
+Print Assumptions C04_delivered_exactly_at_last_byte.
+
+(* ... and the packets are tied to the MODEL's wire: in any live state whose receiver is between two top-level objects, the
+   packets that carry the bytes of the wire's calls `calls` completely and p of the next call c's bytes p ++ q are -- on the whole
+   state -- exactly the Deliver steps of the calls whose last byte they carry: those leave the wire in order, c stays on it
+   unless q = [], what is behind c stays *)
+Theorem C04_wire_bytes_are_delivers : forall (ser : call -> list token) b calls c later bs1 p q cs,
+  (forall c, framed_strict (ser c)) ->
+  b_recv b = Recv.init tt -> f_depth (b_frame b) = 0 ->
+  lost (b_model b) = false -> cut (b_model b) = None -> wire (b_model b) = calls ++ c :: later ->
+  forallb wf_token (concat (map ser (calls ++ [c]))) = true -> forallb no_err (concat (map ser (calls ++ [c]))) = true ->
+  encode_stream (concat (map ser calls)) = Ok bs1 -> encode_stream (ser c) = Ok (p ++ q) -> concat cs = bs1 ++ p ->
+  let b' := fold_left bstep (map BChunk cs) b in
+  let k := match q with [] => S (List.length calls) | _ => List.length calls end in
+  b_model b' = delivers k (b_model b) /\
+  wire (b_model b') = match q with [] => later | _ => c :: later end.
+Proof. exact wire_bytes_are_delivers. Qed.
+Print Assumptions C04_wire_bytes_are_delivers.
+
 (* the eventual-queue schedule: the three facts about eventual.py that lib/Order.v uses are those of C17's translated
    configuration, and the batch discipline of a model Turn is C17's theorem about the real queue (imported) *)
 Theorem C04_eventual_readings_agree :
@@ -229,6 +293,10 @@ Theorem C04_eventual_readings_agree :
 Proof. exact two_readings_agree. Qed.
 Print Assumptions C04_eventual_readings_agree.
 
+(* NOTE on the next statement: the C04 state s enters it ONLY through List.length (evq s) -- `thunk` has a single constructor
+   (TDoNext), so a C04 eventual queue IS its length, and what is related is "a C04 Turn runs a batch of that many doNextCalls" with
+   "C17's turn runs exactly the events queued before it, in order, and queues what they submit behind".  It is not a step-by-step
+   simulation of Broker thunks in C17's script model (listed under modelled-not-verified in the manifest). *)
 Theorem C04_turn_batch_is_C17_batch : forall eops st t st' t' (s : state),
   Eventual.run src_cfg q0 eops = (st, t) -> Eventual.turn src_cfg st = (st', t') ->
   List.length (events st) = List.length (evq s) ->
